@@ -48,6 +48,14 @@ namespace nop {
 template <typename A, typename B, typename Enabled = void>
 struct IsFungible : std::is_same<std::decay_t<A>, std::decay_t<B>> {};
 
+// The element type of a std::array or C array as the rules below compare it:
+// references and cv-qualifiers are stripped but, unlike std::decay, an element
+// that is itself a C array keeps its extent. Decaying the inner array of
+// int[2][3] and int[2][4] to a pointer would make the two compare equal although
+// their encodings differ.
+template <typename T>
+using ElementType = std::remove_cv_t<std::remove_reference_t<T>>;
+
 // Determines whether element types A and B select the same container format.
 // Containers of integral elements use the binary container while containers of
 // any other element type use the array container: two element types are only
@@ -75,7 +83,7 @@ struct IsFungible<ReturnA(ArgsA...), ReturnB(ArgsB...),
 // Compares two std::arrays to see if the element types are fungible.
 template <typename A, typename B, std::size_t Size>
 struct IsFungible<std::array<A, Size>, std::array<B, Size>>
-    : And<IsFungible<std::decay_t<A>, std::decay_t<B>>,
+    : And<IsFungible<ElementType<A>, ElementType<B>>,
           IsSameElementFormat<A, B>> {};
 
 // Compares two C arrays to see if the element types are fungible. Sizes are
@@ -84,7 +92,7 @@ struct IsFungible<std::array<A, Size>, std::array<B, Size>>
 // correctly.
 template <typename A, typename B, std::size_t SizeA, std::size_t SizeB>
 struct IsFungible<A[SizeA], B[SizeB]>
-    : And<IsFungible<std::decay_t<A>, std::decay_t<B>>,
+    : And<IsFungible<ElementType<A>, ElementType<B>>,
           IsSameElementFormat<A, B>,
           std::integral_constant<bool, SizeA == SizeB>> {};
 
@@ -192,31 +200,31 @@ struct IsFungible<
 // fungible.
 template <typename A, typename B, typename Allocator, std::size_t Size>
 struct IsFungible<std::vector<A, Allocator>, std::array<B, Size>>
-    : And<IsFungible<std::decay_t<A>, std::decay_t<B>>,
+    : And<IsFungible<ElementType<A>, ElementType<B>>,
           IsSameElementFormat<A, B>> {};
 template <typename A, typename B, typename Allocator, std::size_t Size>
 struct IsFungible<std::array<A, Size>, std::vector<B, Allocator>>
-    : And<IsFungible<std::decay_t<A>, std::decay_t<B>>,
+    : And<IsFungible<ElementType<A>, ElementType<B>>,
           IsSameElementFormat<A, B>> {};
 
 // Compares C array and std::vector to see if the elements types are fungible.
 template <typename A, typename B, typename Allocator, std::size_t Size>
 struct IsFungible<A[Size], std::vector<B, Allocator>>
-    : And<IsFungible<std::decay_t<A>, std::decay_t<B>>,
+    : And<IsFungible<ElementType<A>, ElementType<B>>,
           IsSameElementFormat<A, B>> {};
 template <typename A, typename B, typename Allocator, std::size_t Size>
 struct IsFungible<std::vector<A, Allocator>, B[Size]>
-    : And<IsFungible<std::decay_t<A>, std::decay_t<B>>,
+    : And<IsFungible<ElementType<A>, ElementType<B>>,
           IsSameElementFormat<A, B>> {};
 
 // Compares C array and std::array to see if the element types are fungible.
 template <typename A, typename B, std::size_t Size>
 struct IsFungible<A[Size], std::array<B, Size>>
-    : And<IsFungible<std::decay_t<A>, std::decay_t<B>>,
+    : And<IsFungible<ElementType<A>, ElementType<B>>,
           IsSameElementFormat<A, B>> {};
 template <typename A, typename B, std::size_t Size>
 struct IsFungible<std::array<A, Size>, B[Size]>
-    : And<IsFungible<std::decay_t<A>, std::decay_t<B>>,
+    : And<IsFungible<ElementType<A>, ElementType<B>>,
           IsSameElementFormat<A, B>> {};
 
 // Compares Result<ErrorEnum, A> and Result<ErrorEnum, B> to see if A and B are
